@@ -180,6 +180,7 @@ def fixed_battery() -> list[dict]:
     items.append(text_item("fix:text-reversed", list(reversed(P)) + P, [], [" "]))
     items.append(text_item("fix:text-none", [], [{"name": "given", "version": "1.0"}], ["<p>no deps</p>"]))
     items.extend(pkg_battery())
+    items.extend(fixed_progs())
     items.append({"id": "fix:resolve", "kind": "resolve",
                   "deps": [{"name": n, "version": v} for n, v in coll + list(reversed(coll))]})
     items.append({"id": "fix:unique", "kind": "unique",
@@ -377,6 +378,293 @@ def rand_battery(rng, n: int, tag: str) -> list[dict]:
 
 
 # ------------------------------------------------------------------------------------------
+# programs over the public construction / mutation API (item kind "prog", see c18_worker.Prog)
+#
+# What the pools are built for (each is a CLASS of inputs on which a value-keyed memo, a set(), a
+# hash()-derived name or a position-by-substring shortcut goes wrong, while ordinary inputs do not):
+#   * attribute values / children / css values that are EQUAL under == and hash alike but are of
+#     different types and must be written differently: True / 1 / 1.0, False / 0 / 0.0 / -0.0,
+#     's' / HTML('s') / str-subclass('s') / HTML-subclass('s'), 10**20 / 1e20, -1 / -2 (same hash);
+#   * attribute names that meet after normalisation (class_ / class / className, data_x / data-x);
+#   * class tokens that are prefixes / substrings of one another, repeated tokens, all kinds of
+#     white space, several tokens in ONE argument of add_class / remove_class / has_class;
+#   * operation sequences on one object (and on copies of it) through every mutating method.
+# ------------------------------------------------------------------------------------------
+def H(s):
+    return {"h": s}
+
+
+def U(s):
+    return {"u": s}
+
+
+EQ_VALUES = [True, False, None, 1, 0, 1.0, 0.0, -0.0, -1, -1.0, -2, -2.0, 2, 2.0, 1.5, 0.5, 10, 10.0,
+             10 ** 20, 1e20, 1e-07, 3, 3.0,
+             "1", "0", "1.0", "0.0", "-0.0", "", "True", "False", "None", "2", "x", "a<b", "a&lt;b", 'q"q', "it's",
+             H("1"), H("0"), H(""), H("x"), H("a<b"), H("a&lt;b"), H('q"q'), H("1.0"), H("True"),
+             U("1"), U("0"), U(""), U("x"), U("a<b"), U('q"q'), U("True"), U("1.0"),
+             {"hs": "1"}, {"hs": "a<b"}, {"hs": ""}]
+BAD_VALUES = [{"x": "obj"}, {"x": "bytes"}, {"x": "list"}, {"x": "complex"}]
+PROG_KEYS = ["class", "class_", "className", "id", "id_", "style", "style_", "hidden", "disabled", "checked",
+             "value", "opacity", "cx", "cy", "r", "tabindex", "data_x", "data-x", "data_x_", "data__x",
+             "aria_label", "aria-label", "for_", "for", "http_equiv", "title", "href", "x_", "X", "x",
+             "viewBox", "xlink:href", "fill_opacity", "fill-opacity", "min", "max"]
+CLASS_TOKENS = ["btn", "btn-primary", "btn-lg", "nav", "nav-link", "nav-item", "a", "ab", "abc", "b", "bc", "c",
+                "active", "act", "show", "sh", "x", "xx", "é", "A", "col", "col-1", "col-10"]
+STYLES = ["color: red;", "top: 0;", "a:1;", "a:1; b:2;", "b:2;", H("font-family: 'X';"), U("b:2;"), H("a:1;"),
+          "nosemicolon", "", ";", None, 1, {"css": [["color", "red"], ["top", 0]]}]
+TEXTS = ["a<b", "a&lt;b", "1", "1.0", "", "x", "True", "&amp;", "t\n", 'q"q']
+TAG_FNS = [("tags", n) for n in ("div", "span", "a", "p", "input", "img", "ul", "li", "button", "script", "style",
+                                 "textarea", "pre", "option", "select", "b", "meta", "link")] + \
+          [("svg", n) for n in ("svg", "circle", "rect", "g", "path", "text", "line")]
+CSS_KEYS = ["color", "font_size", "font-size", "fontSize", "margin_top", "z_index", "opacity", "top", "a", "B", "_x"]
+
+
+def rand_class_string(rng, tokens=None) -> str:
+    toks = [rng.choice(tokens or CLASS_TOKENS) for _ in range(rng.choice([1, 1, 2, 2, 3, 3, 4, 5, 6]))]
+    if len(toks) > 1 and rng.random() < 0.3:
+        toks.insert(rng.randrange(len(toks) + 1), rng.choice(toks))       # a repeated token
+    s = toks[0]
+    for t in toks[1:]:
+        s += rng.choice([" ", " ", " ", "  ", "\t", "\n"]) + t
+    if rng.random() < 0.15:
+        s = rng.choice([" ", "\t"]) + s
+    if rng.random() < 0.15:
+        s = s + rng.choice([" ", "\n"])
+    return s
+
+
+def rand_class_value(rng, tokens=None):
+    r = rng.random()
+    s = rand_class_string(rng, tokens)
+    if r < 0.80:
+        return s
+    if r < 0.88:
+        return H(s)
+    if r < 0.94:
+        return U(s)
+    return rng.choice([None, "", True, False, 1, 1.0, 0])
+
+
+def rand_value(rng):
+    r = rng.random()
+    if r < 0.85:
+        return rng.choice(EQ_VALUES)
+    if r < 0.90:
+        return rng.choice(BAD_VALUES)
+    if r < 0.95:
+        t = trees.rand_text(rng, 6)
+        return rng.choice([t, H(t), U(t)])
+    return {"css": [[rng.choice(CSS_KEYS), rng.choice(EQ_VALUES)] for _ in range(rng.choice([1, 2, 3]))]}
+
+
+def typed_dep(rng) -> list:
+    """a dependency whose script / stylesheet / meta items carry non-string attribute values"""
+    def extras(keys):
+        return [[k, rng.choice([True, False, 1, 0, 1.0, 0.0, "", "1", None, "x"])]
+                for k in rng.sample(keys, rng.choice([1, 2, 3]))]
+    p = {"name": rng.choice(["typed", "a", "b"]), "version": rng.choice(["1.0", "1.10", "2"])}
+    if rng.random() < 0.8:
+        p["script"] = [dict([["src", rng.choice(["s.js", "t u.js"])]] +
+                            extras(["async", "defer", "nomodule", "data-n", "crossorigin", "type"]))
+                       for _ in range(rng.choice([1, 1, 2]))]
+    if rng.random() < 0.5:
+        p["stylesheet"] = [dict([["href", "c.css"]] + extras(["disabled", "media", "data-w", "title"]))]
+    if rng.random() < 0.3:
+        p["meta"] = [dict([["name", "n"], ["content", "c"]] + extras(["data-k", "lang", "hidden"]))]
+    return ["M", p]
+
+
+def rand_kid(rng, nregs: int, lower: int | None = None, jsx: bool = False):
+    """lower: only registers below this index may be referenced (parents have the higher index:
+    no cycles)"""
+    r = rng.random()
+    hi = nregs if lower is None else lower
+    if hi > 0 and r < 0.2:
+        return {"r": rng.randrange(hi)}
+    if r < 0.45:
+        t = rng.choice(TEXTS)
+        return t if jsx else rng.choice([t, t, H(t), U(t), {"hs": t}, {"n": ["R", t]}])
+    if r < 0.6:
+        return rng.choice([1, 1.0, 0, 0.0, -0.0, True, False, None, 2.5, 10 ** 20, 1e20, -1, -2])
+    if r < 0.75:
+        return {"n": jl(trees.rand_child(rng, rng.choice([0, 1, 2]), leaves="THRMDD", names="bivs", maxkids=3))}
+    if r < 0.85:
+        return {"n": typed_dep(rng)}
+    if r < 0.9:
+        return {"n": hc(rng.randrange(len(HC_POOL)))}
+    if r < 0.95:
+        return {"l": [rand_kid(rng, nregs, lower, jsx) for _ in range(rng.choice([0, 1, 2, 3]))]}
+    return rng.choice(BAD_VALUES)
+
+
+def rand_attr_pairs(rng, profile: str) -> list:
+    out = []
+    for _ in range(rng.choice([0, 1, 1, 2, 2, 3, 4, 6])):
+        k = rng.choice(PROG_KEYS)
+        if k.rstrip("_") in ("class", "className") and rng.random() < 0.8:
+            out.append([k, rand_class_value(rng)])
+        elif k.rstrip("_") == "style" and rng.random() < 0.7:
+            out.append([k, rng.choice(STYLES)])
+        else:
+            out.append([k, rand_value(rng)])
+    if profile == "class" and not any(k.rstrip("_") == "class" for k, _ in out):
+        out.append([rng.choice(["class", "class_"]), rand_class_value(rng)])
+    return out
+
+
+def rand_args(rng, nregs: int, profile: str, jsx: bool = False) -> list:
+    args = []
+    for _ in range(rng.choice([0, 1, 1, 2, 3, 4])):
+        if not jsx and rng.random() < 0.35:
+            args.append({"a": rand_attr_pairs(rng, profile)})
+        else:
+            args.append(rand_kid(rng, nregs, jsx=jsx))
+    return args
+
+
+def rand_creator(rng, nregs: int, profile: str) -> list:
+    r = rng.random()
+    kw = rand_attr_pairs(rng, profile)
+    if profile == "jsx" and r < 0.6:
+        props = [[k, rng.choice([v, v, {"l": [v, 1, 1.0, True]}, {"d": [["k", v], ["j", 1.0]]}, {"js": "() => 1"}])]
+                 for k, v in kw]
+        if nregs and rng.random() < 0.4:
+            props.append(["slot", {"r": rng.randrange(nregs)}])
+        return ["jsx", rng.choice(["Foo", "Foo.Bar", "MyTag"]), rand_args(rng, nregs, profile, jsx=True), props]
+    if r < 0.45:
+        name, ws = trees.rand_name(rng, "bbiivsc")
+        return ["tag", name, rng.choice([None, ws, ws, not ws]), rand_args(rng, nregs, profile), kw]
+    if r < 0.8:
+        mod, name = rng.choice(TAG_FNS)
+        return ["fn", mod, name, rand_args(rng, nregs, profile), kw]
+    if r < 0.88:
+        return ["cons", rand_args(rng, nregs, profile), kw]
+    if r < 0.94 and nregs:
+        return [rng.choice(["copy", "deepcopy", "tagify"]), rng.randrange(nregs)]
+    return ["list", [rand_kid(rng, nregs) for _ in range(rng.choice([0, 1, 2, 3]))]]
+
+
+def rand_mutator(rng, nregs: int, profile: str) -> list:
+    i = rng.randrange(nregs)
+    r = rng.random()
+    if profile == "class":
+        r *= 0.5
+    if r < 0.12:
+        return ["add_class", i, rand_class_value(rng), rng.random() < 0.3]
+    if r < 0.30:
+        # one name, several names, names that are not there, names with white space around
+        v = rand_class_value(rng, CLASS_TOKENS + ["zz", "nope"])
+        return ["remove_class", i, v]
+    if r < 0.38:
+        return ["has_class", i, rand_class_string(rng)]
+    if r < 0.44:
+        return ["add_style", i, rng.choice(STYLES), rng.random() < 0.3]
+    if r < 0.50:
+        return ["attrs", i] if rng.random() < 0.5 else ["render", i]
+    if r < 0.60:
+        return ["set", i, rng.choice(PROG_KEYS), rand_value(rng)]
+    if r < 0.70:
+        return ["upd", i, [rand_attr_pairs(rng, profile) for _ in range(rng.choice([0, 1, 2]))],
+                rand_attr_pairs(rng, profile)]
+    if r < 0.74:
+        return ["del", i, rng.choice(["class", "style", "id", "hidden", "data-x"])]
+    if r < 0.78:
+        return ["get", i, rng.choice(["class", "style", "id", "hidden", "data-x", "value"])]
+    if r < 0.90:
+        op = rng.choice(["append", "extend", "iadd"])
+        return [op, i, [rand_kid(rng, nregs, lower=i) for _ in range(rng.choice([1, 1, 2, 3]))]]
+    if r < 0.94:
+        return ["insert", i, rng.choice([0, 0, 1, -1, 5]), rand_kid(rng, nregs, lower=i)]
+    if r < 0.97:
+        return ["css", [[rng.choice(CSS_KEYS), rng.choice(EQ_VALUES + [{"l": ["a", "b"]}])]
+                        for _ in range(rng.choice([0, 1, 2, 4]))], rng.choice(["", "", "\n", " "])]
+    return ["escape", rng.choice(TEXTS + [trees.rand_text(rng, 6)]), rng.random() < 0.5]
+
+
+def rand_prog_item(rng, iid: str) -> dict:
+    profile = rng.choice(["class", "class", "typed", "typed", "mixed", "mixed", "jsx"])
+    steps = [rand_creator(rng, 0, profile)]
+    nregs = 1
+    for _ in range(rng.choice([0, 1, 2, 3, 4, 6, 9])):
+        if rng.random() < 0.25:
+            steps.append(rand_creator(rng, nregs, profile))
+            nregs += 1
+        else:
+            steps.append(rand_mutator(rng, nregs, profile))
+    kw = rng.choice([[], [], [["lang", "en"]], [["hidden", True], ["data_n", 1.0]], [["class", "k"], ["tabindex", 0]],
+                     [["data_n", 1], ["lang", U("en")]]])
+    return {"id": iid, "kind": "prog", "steps": steps, "doc_kw": kw}
+
+
+def fixed_progs() -> list[dict]:
+    """hand-written members of the classes above; each construction is its own item, so that every
+    process meets them in its own order and each is also rendered without any history"""
+    def item(name, steps, kw=()):
+        return {"id": "fix:prog-" + name, "kind": "prog", "steps": steps, "doc_kw": [list(x) for x in kw]}
+    out = []
+    # the same attribute written with ==-equal values of different types, one construction per item
+    for j, vals in enumerate([[True, False], [1, 0], [1.0, 0.0], ["1", "0"], [H("1"), H("0")], [U("1"), U("0")],
+                              [-0.0, 2.0], [2, "2"], [10 ** 20, 1e20], [-1, -2], [-1.0, -2.0], ["", H("")]]):
+        a, b = vals
+        out.append(item(f"eq-kw-{j}", [["fn", "tags", "input", [], [["hidden", a], ["disabled", b], ["value", a],
+                                                                     ["tabindex", b]]]]))
+        out.append(item(f"eq-svg-{j}", [["fn", "svg", "circle", [{"a": [["cx", b], ["cy", a]]}],
+                                         [["opacity", a], ["fill_opacity", b], ["r", a]]]]))
+        out.append(item(f"eq-set-{j}", [["tag", "div", None, [a, b, "t"], []], ["set", 0, "data-v", a],
+                                        ["upd", 0, [[["data-w", b]], [["data-w", a]]], [["data_v", b]]],
+                                        ["attrs", 0]], kw=[["data_n", a], ["hidden", b]]))
+        out.append(item(f"eq-css-{j}", [["css", [["opacity", a], ["z_index", b], ["top", a]], ""],
+                                        ["fn", "tags", "p", ["t"], [["style", {"css": [["opacity", b], ["top", a]]}]]]]))
+        out.append(item(f"eq-dep-{j}", [["tag", "div", None, [{"n": ["M", {
+            "name": "typed", "version": "1.0", "script": {"src": "s.js", "async": a, "defer": b, "data-n": a},
+            "stylesheet": [{"href": "c.css", "disabled": b, "data-w": a}]}]}], []]]))
+        out.append(item(f"eq-jsx-{j}", [["jsx", "Foo", ["kid"], [["open", a], ["count", b],
+                                                                 ["opts", {"d": [["k", a], ["l", {"l": [a, b]}]]}]]]]))
+    # the same text as a plain string, trusted markup, subclass instances: children and attributes
+    for j, t in enumerate(["a<b", "a&lt;b", 'q"q', "1"]):
+        for k, v in enumerate([t, H(t), U(t), {"hs": t}, {"n": ["R", t]}]):
+            out.append(item(f"text-{j}-{k}", [["tag", "div", None, [v, {"a": [["title", v if k < 4 else t]]}],
+                                               [["class_", v if k < 4 else t]]],
+                                              ["add_class", 0, v if k < 4 else t, False]]))
+    # attribute names that meet after normalisation, in several orders
+    names = ["class", "class_", "className", "data_x", "data-x", "data_x_", "for_", "for"]
+    for j, order in enumerate([names, list(reversed(names)), names[1::2] + names[0::2]]):
+        out.append(item(f"names-{j}", [["tag", "label", None, [{"a": [[n, f"v{i}"] for i, n in enumerate(order[:4])]}],
+                                        [[n, f"w{i}"] for i, n in enumerate(order[4:])]],
+                                       ["upd", 0, [[[n, "u"] for n in order]], []], ["attrs", 0]]))
+    # class tokens that are prefixes / substrings of one another, repeated, with all kinds of white space
+    cls = ["btn-primary btn nav-link nav-item nav", "abc ab a bc b c", "col-10 col-1 col", "x xx x\txx\nx",
+           " active  act show sh ", "a b c d e f g h", "nav nav-link nav", "btn btn btn-lg btn"]
+    rem = ["btn", "nav btn", "zz nope", "x", " a  c ", "col-1 col", "show zz", "nav-link\tnav", "a b c", "act active zz"]
+    for j, c in enumerate(cls):
+        for k, rm in enumerate(rem):
+            if (j + k) % 2:
+                continue
+            out.append(item(f"class-{j}-{k}", [
+                ["fn", "tags", "div", ["t"], [["class_", c]]], ["remove_class", 0, rm], ["attrs", 0],
+                ["has_class", 0, rm], ["add_class", 0, rm, k % 3 == 0], ["remove_class", 0, rem[(k + 3) % len(rem)]],
+                ["copy", 0], ["remove_class", 1, rem[(k + 5) % len(rem)]], ["add_class", 1, c, True],
+                ["render", 0]]))
+    # styles
+    out.append(item("styles", [["fn", "tags", "p", [], [["style", "a:1;"]]], ["add_style", 0, "b:2;", False],
+                               ["add_style", 0, H("c:'3';"), True], ["add_style", 0, "a:1;", False],
+                               ["add_style", 0, "nosemicolon", False], ["add_style", 0, U("d:4;"), True],
+                               ["deepcopy", 0], ["add_style", 1, "e:5;", False], ["attrs", 0], ["attrs", 1]]))
+    # children through every route, numbers among them
+    out.append(item("children", [["tag", "ul", True, [1, 1.0, True, 0, 0.0, False, None, "1"], []],
+                                 ["append", 0, [2, 2.0, {"l": [3, [3.0]]}]], ["extend", 0, [H("<i>"), U("<i>"), "<i>"]],
+                                 ["insert", 0, 0, -0.0], ["iadd", 0, [10 ** 20, 1e20]], ["tagify", 0], ["copy", 0],
+                                 ["append", 2, ["only in the copy"]], ["render", 0], ["render", 1], ["render", 2]]))
+    out.append(item("faults", [["tag", "div", None, [{"x": "obj"}], []], ["tag", "div", None, ["k"], [["id", {"x": "bytes"}]]],
+                               ["tag", "div", None, ["k"], [["id", "i"]]], ["set", 2, "a", {"x": "complex"}],
+                               ["upd", 2, [[["b", 1.0], ["c", {"x": "list"}], ["d", True]]], []], ["attrs", 2],
+                               ["append", 2, ["ok", {"x": "obj"}]], ["add_class", 2, {"x": "obj"}, False],
+                               ["fn", "tags", "span", [1.0], [["hidden", True]]]]))
+    return out
+
+
+# ------------------------------------------------------------------------------------------
 # walking descriptions
 # ------------------------------------------------------------------------------------------
 def walk(d, f):
@@ -490,13 +778,15 @@ def wire(items: list[dict]) -> str:
                       ensure_ascii=True)
 
 
-def run_worker(battery_json: str, hashseed: str, order_seed: int, isolated: bool = False) -> dict:
+def run_worker(battery_json: str, hashseed: str, order_seed: int, isolated: bool = False,
+               raw_ids: list[str] | None = None) -> dict:
     env = dict(os.environ)
     env["PYTHONHASHSEED"] = hashseed
     env["PYTHONPATH"] = REPO
     env["VERIF_REPO"] = REPO
     try:
-        p = subprocess.run([PY, WORKER, str(order_seed)] + (["--isolated"] if isolated else []), input=battery_json, stdout=subprocess.PIPE,
+        p = subprocess.run([PY, WORKER, str(order_seed)] + (["--isolated"] if isolated else []) +
+                           ["--raw=" + i for i in (raw_ids or [])], input=battery_json, stdout=subprocess.PIPE,
                            stderr=subprocess.PIPE, env=env, text=True, timeout=900, cwd="/")
     except subprocess.TimeoutExpired:
         return {"failed": "timeout"}
@@ -551,7 +841,7 @@ def check_reference(ctx: Ctx, items: list[dict], ref: dict) -> list:
             log.append((name, content))
             if name != HC + sha1(content):
                 ctx.violation(V_NAME, it, {"impl_output": name, "expected": HC + sha1(content), "content": content})
-        if it["kind"] == "tree" or it["kind"] == "expr":
+        if it["kind"] in ("tree", "expr", "prog"):
             if o.get("html", ["err"])[0] == "ok" and (o["html_again"] != o["html"] or o["str"] != o["html"]):
                 ctx.violation(V_AGAIN, it, {"impl_output": [o["html_again"], o["str"]], "expected": o["html"]})
             # no name twice among the dependencies of a rendering
@@ -739,21 +1029,102 @@ def correspondence(ctx: Ctx, items: list[dict], ref: dict, label: str) -> None:
 
 
 # ------------------------------------------------------------------------------------------
+# after a difference has been seen: show it (texts instead of digests) and look for its cause
+# ------------------------------------------------------------------------------------------
+def plain(it: dict) -> dict:
+    return {k: v for k, v in it.items() if not k.startswith("_")}
+
+
+def differing(a, b) -> list:
+    return sorted(k for k in set(a or {}) | set(b or {}) if (a or {}).get(k) != (b or {}).get(k))
+
+
+def first_of(ctx: Ctx, what: str) -> bool:
+    """ctx.violation keeps the first report of each kind: the costly explanations are made for that one only"""
+    return len(ctx.violations) < 5 and not any(v["what"] == what for v in ctx.violations)
+
+
+def texts(o: dict | None) -> dict:
+    return {k[1:-4]: o[k] for k in ("_html_raw", "_doc_raw") if o and k in o}
+
+
+def one_run(items: list[dict], it: dict, hashseed: str) -> dict | None:
+    """the items, then `it`, in this order in a fresh interpreter; the observation of `it` with its texts"""
+    out = run_worker(wire(items + [it]), hashseed, 0, raw_ids=[it["id"]])
+    return None if "failed" in out else out["results"].get(it["id"])
+
+
+def explain(pool: ThreadPoolExecutor, items: list[dict], it: dict, hashseed: str) -> dict:
+    """`it` alone in a fresh interpreter (PYTHONHASHSEED=hashseed) against `it` after the given other items
+    (in the given order): if the observations differ, halve the history down to one earlier item (when one
+    is enough)."""
+    alone = one_run([], it, hashseed)
+    out = {"alone": alone}
+    if alone is None:
+        return out
+    base = W.strip_raw(alone)
+    cands = list(items)
+    full = one_run(cands, it, hashseed)
+    if full is None or W.strip_raw(full) == base:
+        return out
+    out["after_all"] = full
+    while len(cands) > 1:
+        a, b = cands[:len(cands) // 2], cands[len(cands) // 2:]
+        fa, fb = pool.submit(one_run, a, it, hashseed), pool.submit(one_run, b, it, hashseed)
+        ra, rb = fa.result(), fb.result()
+        if ra is not None and W.strip_raw(ra) != base:
+            cands, full = a, ra
+        elif rb is not None and W.strip_raw(rb) != base:
+            cands, full = b, rb
+        else:
+            break               # no half is enough on its own
+    out["history"] = cands
+    out["after_history"] = full
+    return out
+
+
+def history_detail(ex: dict, hashseed: str) -> dict:
+    d = {}
+    if ex.get("alone") is None:
+        return d
+    d["texts_alone"] = texts(ex["alone"])
+    if ex.get("history") is not None:
+        h = ex["history"]
+        d["earlier_items"] = [plain(x) for x in h] if len(h) <= 3 else \
+            {"count": len(h), "first": plain(h[0]), "note": "no half of these is enough on its own"}
+        d["fields_changed_by_the_earlier_items"] = differing(W.strip_raw(ex["alone"]), W.strip_raw(ex["after_history"]))
+        d["texts_after_the_earlier_items"] = texts(ex["after_history"])
+        d["reproduce"] = ("fresh interpreter, PYTHONHASHSEED=%s: build and render earlier_items, then this item; "
+                          "compare with this item alone" % hashseed)
+    else:
+        d["earlier_items"] = ("not found: the battery items that came before this one do not change it in a fresh "
+                              "interpreter with PYTHONHASHSEED=%s (in the process of ./check the fault prelude runs "
+                              "before the battery)" % hashseed)
+    return d
+
+
+# ------------------------------------------------------------------------------------------
 def process_battery(ctx: Ctx, items: list[dict], configs: list[tuple[str, int]], label: str,
                     pool: ThreadPoolExecutor, n_fresh: int = 12) -> dict:
     ids = [it["id"] for it in items]
     assert len(set(ids)) == len(ids)
     bj = wire(items)
+    # the history-free reference runs use the hash seed of one of the worker processes (the first that is
+    # not "random"): that worker and the reference differ by the history only.  (The hash seed of THIS process
+    # is whatever ./check was started with.)
+    h_conf = next((k for k, (hs, _) in enumerate(configs) if hs != "random"), 0)
+    h_seed = configs[h_conf][0]
+    explains_left = [2]                                    # searches for the earlier item that matters (costly)
     futures = [pool.submit(run_worker, bj, hs, os_) for hs, os_ in configs]
     # references without history: (a) every item in its own forked child of a process that has
     # only imported htmltools (two shards), (b) a sample -- all package-sourced items first -- each
     # in a really fresh interpreter that is given that one item only
     shards = [items[0::2], items[1::2]] if len(items) > 1 else [items]
-    iso_futures = [pool.submit(run_worker, wire(sh), configs[k % len(configs)][0], 1 + k, True)
+    iso_futures = [pool.submit(run_worker, wire(sh), h_seed, 1 + k, True)
                    for k, sh in enumerate(shards)]
     fresh_items = ([it for it in items if it.get("_pkg") and it["id"].startswith("fix:")] +
                    [it for it in items if not it.get("_pkg")][:: max(1, len(items) // n_fresh)])[: n_fresh + 11]
-    fresh_futures = [pool.submit(run_worker, wire([it]), configs[k % len(configs)][0], 1)
+    fresh_futures = [pool.submit(run_worker, wire([it]), h_seed, 1)
                      for k, it in enumerate(fresh_items)]
     # in-process reference (natural order) while the workers run
     ref = {it["id"]: W.observe(jl({k: v for k, v in it.items() if not k.startswith("_")}), raw=True)
@@ -768,8 +1139,11 @@ def process_battery(ctx: Ctx, items: list[dict], configs: list[tuple[str, int]],
     by_id = {it["id"]: it for it in items}
     failed, probes, wrong_import, mode_bad = [], set(), [], []
     n_diff = 0
-    for (hs, os_), fu in zip(configs, futures):
+    w_h = None                      # the results of the worker that ran with h_seed
+    for ci, ((hs, os_), fu) in enumerate(zip(configs, futures)):
         out = fu.result()
+        if ci == h_conf and "failed" not in out:
+            w_h = out["results"]
         if "failed" in out:
             failed.append({"hashseed": hs, "order_seed": os_, "why": out["failed"]})
             continue
@@ -786,32 +1160,62 @@ def process_battery(ctx: Ctx, items: list[dict], configs: list[tuple[str, int]],
             got = out["results"].get(iid)
             if got != ref_plain[iid]:
                 n_diff += 1
-                fields = sorted(k for k in set(got or {}) | set(ref_plain[iid])
-                                if (got or {}).get(k) != ref_plain[iid].get(k))
-                ctx.violation(V_PROC, {k: v for k, v in it.items() if not k.startswith("_")},
-                              {"fields": fields, "hashseed": hs, "order_seed": os_,
-                               "impl_output": {k: (got or {}).get(k) for k in fields},
-                               "expected": {k: ref_plain[iid].get(k) for k in fields},
-                               "note": "expected = in-process run (PYTHONHASHSEED=%s, natural order)"
-                                       % os.environ.get("PYTHONHASHSEED")})
+                fields = differing(got, ref_plain[iid])
+                detail = {"fields": fields, "hashseed": hs, "order_seed": os_,
+                          "impl_output": {k: (got or {}).get(k) for k in fields},
+                          "expected": {k: ref_plain[iid].get(k) for k in fields},
+                          "note": "impl_output = worker process; expected = the process of ./check (its own hash "
+                                  "seed, natural order)"}
+                if first_of(ctx, V_PROC):
+                    # what the difference looks like, and what it depends on
+                    detail["expected_texts"] = texts(ref[iid])
+                    other = next(x for x in ("0", "1", "2") if x != hs)
+                    a1 = one_run([], it, hs) if hs != "random" else None
+                    a0 = one_run([], it, other)
+                    if a1 is not None and a0 is not None and W.strip_raw(a1) != W.strip_raw(a0):
+                        detail["impl_texts"] = texts(a1)
+                        detail["texts_with_another_hash_seed"] = texts(a0)
+                        detail["cause"] = ("the hash seed: this item alone in a fresh interpreter gives impl_texts with "
+                                           "PYTHONHASHSEED=%s and texts_with_another_hash_seed with PYTHONHASHSEED=%s"
+                                           % (hs, other))
+                    elif hs != "random" and explains_left[0] > 0:
+                        explains_left[0] -= 1
+                        if a1 is not None and jl(W.strip_raw(a1)) == got:
+                            # the worker agrees with the item alone: the in-process run is the one that deviates
+                            before = items[:ids.index(iid)]
+                            who = "the process of ./check (natural order)"
+                        else:
+                            # the items that came before this one in that worker, in its order
+                            import random as _random
+                            perm = list(range(len(items)))
+                            _random.Random(os_).shuffle(perm)          # as c18_worker.main does
+                            before = [items[j] for j in perm[:perm.index(ids.index(iid))]]
+                            who = "that worker process"
+                        ex = explain(pool, before, it, hs)
+                        detail.update(history_detail(ex, hs))
+                        detail["cause"] = ("what was built or rendered earlier in %s: the item alone in a fresh interpreter "
+                                           "gives texts_alone" % who)
+                ctx.violation(V_PROC, plain(it), detail)
     # ---- history: at the end of the run (everything has been built and rendered in this process)
     # every item once more; against its first rendering and against the history-free references
-    def plain(it):
-        return {k: v for k, v in it.items() if not k.startswith("_")}
-
-    def differing(a, b):
-        return sorted(k for k in set(a or {}) | set(b or {}) if (a or {}).get(k) != (b or {}).get(k))
     for it in reversed(items):
-        end = jl(W.strip_raw(W.observe(jl(plain(it)))))
+        end_raw = W.observe(jl(plain(it)), raw=True)
+        end = jl(W.strip_raw(end_raw))
         ctx.count({"item": it["id"], "battery": label, "where": "in-process, end of run"}, nontrivial(it),
                   f"{it['kind']} (in-process, re-rendered at the end)")
         if end != ref_plain[it["id"]]:
             fields = differing(end, ref_plain[it["id"]])
-            ctx.violation(V_HISTORY, plain(it),
-                          {"fields": fields, "impl_output": {k: end.get(k) for k in fields},
-                           "expected": {k: ref_plain[it["id"]].get(k) for k in fields},
-                           "note": "impl_output = the item rendered again at the end of the in-process run; "
-                                   "expected = its first rendering in the same process"})
+            detail = {"fields": fields, "impl_output": {k: end.get(k) for k in fields},
+                      "expected": {k: ref_plain[it["id"]].get(k) for k in fields},
+                      "note": "impl_output = the item rendered again at the end of the in-process run; "
+                              "expected = its first rendering in the same process"}
+            if first_of(ctx, V_HISTORY):
+                detail["impl_texts"], detail["expected_texts"] = texts(end_raw), texts(ref[it["id"]])
+                if explains_left[0] > 0:
+                    explains_left[0] -= 1
+                    others = [x for x in items if x["id"] != it["id"]]
+                    detail.update(history_detail(explain(pool, others, it, h_seed), h_seed))
+            ctx.violation(V_HISTORY, plain(it), detail)
     iso_failed = []
     for what, futs, groups in (("forked child of a process that rendered nothing", iso_futures, shards),
                                ("fresh interpreter given this item only", fresh_futures, [[x] for x in fresh_items])):
@@ -825,13 +1229,28 @@ def process_battery(ctx: Ctx, items: list[dict], configs: list[tuple[str, int]],
                 got = out["results"].get(it["id"])
                 ctx.count({"item": it["id"], "battery": label, "where": what}, nontrivial(it),
                           f"{it['kind']} ({'isolated child' if futs is iso_futures else 'fresh interpreter'})")
-                if got != ref_plain[it["id"]]:
-                    fields = differing(got, ref_plain[it["id"]])
-                    ctx.violation(V_HISTORY, plain(it),
-                                  {"fields": fields, "impl_output": {k: ref_plain[it["id"]].get(k) for k in fields},
-                                   "expected": {k: (got or {}).get(k) for k in fields},
-                                   "note": "impl_output = in-process run after %d other items; expected = %s"
-                                           % (ids.index(it["id"]), what)})
+                # against the worker that ran with the same hash seed (it built and rendered other items before
+                # this one); a difference from the in-process run alone has been reported above (that worker
+                # then differs from the in-process run)
+                with_history = w_h.get(it["id"]) if w_h is not None else ref_plain[it["id"]]
+                if got != with_history:
+                    fields = differing(got, with_history)
+                    detail = {"fields": fields, "impl_output": {k: (with_history or {}).get(k) for k in fields},
+                              "expected": {k: (got or {}).get(k) for k in fields},
+                              "note": "impl_output = %s; expected = %s (PYTHONHASHSEED=%s)"
+                                      % ("worker process (PYTHONHASHSEED=%s) after other items" % h_seed
+                                         if w_h is not None else "in-process run after other items", what, h_seed)}
+                    if first_of(ctx, V_HISTORY) and explains_left[0] > 0:
+                        explains_left[0] -= 1
+                        if w_h is not None:
+                            import random as _random
+                            perm = list(range(len(items)))
+                            _random.Random(configs[h_conf][1]).shuffle(perm)        # as c18_worker.main does
+                            before = [items[j] for j in perm[:perm.index(ids.index(it["id"]))]]
+                        else:
+                            before = items[:ids.index(it["id"])]
+                        detail.update(history_detail(explain(pool, before, it, h_seed), h_seed))
+                    ctx.violation(V_HISTORY, plain(it), detail)
     ctx.obligation(f"history-free reference runs completed ({label}: every item in an isolated child, "
                    f"{len(fresh_items)} items in fresh interpreters)", not iso_failed)
     if iso_failed:
@@ -884,6 +1303,7 @@ def run(ctx: Ctx, only_items: list[dict] | None = None) -> None:
                 items = only_items
             else:
                 items = fixed + rand_battery(rng, ctx.budget(800, 2500), f"rand{b}")
+                items += [rand_prog_item(rng, f"prog{b}:{i}") for i in range(ctx.budget(400, 1500))]
                 if b == 0:
                     items = items + exhaustive_hc_items(ctx.budget(2, 3))
             configs = [(seeds[b * per + j], rng.randrange(1, 2**31)) for j in range(per)]
@@ -920,9 +1340,13 @@ def replay(ctx: Ctx, path: str) -> None:
         # the item inside the fixed battery: a failure that needs a history (something built or
         # rendered before it) does not show on the item alone
         fixed = fixed_battery()
-        if c["id"] in {it["id"] for it in fixed}:
-            run(ctx, only_items=fixed)
-        else:
-            run(ctx, only_items=fixed + [c])
+        have = {it["id"] for it in fixed}
+        # the earlier items that the report found to matter (generated ones are not in the fixed battery)
+        earlier = (r.get("detail") or {}).get("earlier_items")
+        extra = [ensure_payloads(dict(x)) for x in earlier if isinstance(x, dict) and x.get("id") not in have] \
+            if isinstance(earlier, list) else []
+        if c["id"] not in have:
+            extra.append(c)
+        run(ctx, only_items=fixed + extra)
     else:
         run(ctx)
